@@ -6,6 +6,7 @@ use crate::common::{guarded_mut, run_self, start_watchdog, watched, Ctx};
 use crate::dens::{murmur32_of, Dens, DensState};
 use fnv::FnvHasher;
 use probminhash::densminhash::{OptDensMinHash, RevOptDensMinHash};
+use probminhash::nohasher::NoHashHasher;
 use serde_json::{json, Value};
 use stateright::{Checker, Model, Property};
 use std::collections::BTreeSet;
@@ -247,18 +248,28 @@ impl<S: Dens> Model for DensModel<S> {
 fn find_witnesses<S: Dens>(m: usize, base: u64) -> Option<Vec<u64>> {
     let mut per_bin: Vec<Vec<u64>> = vec![vec![]; m];
     let want = |k: usize| if k == 0 || k + 1 == m { 2 } else { 1 };
+    // boundary identifiers first (with the no-op hasher their hashes are the sentinel values 0 and u64::MAX)
+    let specials = [u64::MAX, 0u64, 1, u64::MAX - 1];
+    let mut si = 0;
     let mut x = base;
     let mut tries = 0;
     while (0..m).any(|k| per_bin[k].len() < want(k)) {
+        let cand = if si < specials.len() {
+            si += 1;
+            specials[si - 1]
+        } else {
+            x += 1;
+            x - 1
+        };
         let mut s = S::new(m);
-        s.sketch(&x);
+        s.sketch(&cand);
         let st = s.state();
         if let Some(k) = st.init.iter().position(|b| *b) {
-            if per_bin[k].len() < want(k) {
-                per_bin[k].push(x);
+            // a special item is always kept (as an extra witness of its bin)
+            if per_bin[k].len() < want(k) || si <= specials.len() && specials.contains(&cand) && !per_bin[k].contains(&cand) {
+                per_bin[k].push(cand);
             }
         }
-        x += 1;
         tries += 1;
         if tries > 1_000_000 {
             return None;
@@ -581,6 +592,9 @@ pub fn run(ctx: &Ctx) -> i32 {
     do_type!(RevOptDensMinHash<f64, u64, FnvHasher>, "rev64", max_m);
     do_type!(OptDensMinHash<f32, u64, FnvHasher>, "opt32", max_m - 1);
     do_type!(RevOptDensMinHash<f32, u64, FnvHasher>, "rev32", max_m - 1);
+    // no-op hasher: the stored hashes are the identifiers themselves, including the boundary values 0 and u64::MAX
+    do_type!(OptDensMinHash<f64, u64, NoHashHasher>, "opt64nohash", max_m - 2);
+    do_type!(RevOptDensMinHash<f64, u64, NoHashHasher>, "rev64nohash", max_m - 2);
     let mut empty_stats = Vec::new();
     let n_empty = empty_stream_cases(ctx, &mut empty_stats);
     println!("C09 states={} transitions={} occupancy-patterns(direct)={} empty-stream cases={}", tot_states, tot_trans, tot_patterns, n_empty);
@@ -629,6 +643,8 @@ pub fn replay(_ctx: &Ctx, case: &Value) -> Result<(bool, String), String> {
                 Some("rev64") => replay_ops::<RevOptDensMinHash<f64, u64, FnvHasher>>(m, &ops, wit, chunks),
                 Some("opt32") => replay_ops::<OptDensMinHash<f32, u64, FnvHasher>>(m, &ops, wit, chunks),
                 Some("rev32") => replay_ops::<RevOptDensMinHash<f32, u64, FnvHasher>>(m, &ops, wit, chunks),
+                Some("opt64nohash") => replay_ops::<OptDensMinHash<f64, u64, NoHashHasher>>(m, &ops, wit, chunks),
+                Some("rev64nohash") => replay_ops::<RevOptDensMinHash<f64, u64, NoHashHasher>>(m, &ops, wit, chunks),
                 _ => return Err("sketcher".into()),
             })
         }
